@@ -29,6 +29,8 @@ nothing of C04's Lean files is imported.  Everything above it mirrors the C++:
 * `PState`, `worldStep`, `runSt`                   the same with `buffers_[0..1]` as persistent state (stale data of earlier
                                                    communications in the receive buffer)
 * `insertKeep`, `Comm.free`, `Comm.build`          life cycle of one communicator object: `free()`, `build()` again
+* `pick`, `stripG`, `interfaceOfG`, `layoutG`, `Comm.buildG`   (round four) `strip` and the loop of `build` with the condition /
+                                                   arithmetic REGENERATED from the source; run by the driver
 * `Phase`, `canFinish`, `CommStep`, `todoSum`      the processes' progress through one `sendRecv` (termination)
 * `rawInterfaceOf`, `dtNeighbours`, `dtCalls`      DatatypeCommunicator: the same index lists used as MPI datatypes
 
@@ -440,6 +442,41 @@ def Comm.free (c : Comm) : Comm := { c with msgs := [] }
     `interfaces_ = …` and one `insert` per neighbour of the new interface -/
 def Comm.build (c : Comm) (sz : Nat) (csS csT : Nat → Nat) (ifs : IfMap) : Comm :=
   { ifs := ifs, msgs := (layout sz csS csT ifs 0 0).foldl insertKeep c.free.msgs, sz := sz, csS := csS, csT := csT }
+
+/-! ### round four: `strip` and the loop of `build` evaluated with what the translator read from the source
+
+`Gen.stripErase`, `Gen.layoutCond` … `Gen.layoutSecondCont` are REGENERATED from interface.hh / communicator.hh; the driver
+runs `interfaceOfG` and `Comm.buildG`; `strip_regenerated`, `layout_regenerated` (Props): they are `interfaceOf`, `Comm.build`. -/
+
+/-- the member of a pair that the source selects -/
+def pick {α : Type} (s : Gen.Side) (e : α × α) : α :=
+  match s with
+  | .first => e.1
+  | .second => e.2
+
+/-- `Interface::strip` with the erase condition as read from interface.hh -/
+def stripG (m : IfMap) : IfMap := m.filter fun e => !(Gen.stripErase e.2.1.size e.2.2.size)
+
+def interfaceOfG (ign : Bool) (S T : Nat → Bool) (sys : System) (p : Nat) : IfMap :=
+  stripG (buildInterfaceRaw S T (remoteSpec ign sys p))
+
+/-- the loop over `interfaces_` of `BufferedCommunicator::build` (`two = false`: `build<Data>(interface)`, `two = true`:
+    `build(source, dest, interface)`) with the sizes, the insert condition, the four `MessageInformation` arguments and the
+    two increments as read from communicator.hh -/
+def layoutG (two : Bool) (sz : Nat) (csS csT : Nat → Nat) : IfMap → Nat → Nat → List (Nat × MsgInfo × MsgInfo)
+  | [], _, _ => []
+  | e :: es, s0, s1 =>
+    let nF := sizeCalc (pick (Gen.layoutFirstCont two) (csS, csT)) e.2.1
+    let nS := sizeCalc (pick (Gen.layoutSecondCont two) (csS, csT)) e.2.2
+    (if Gen.layoutCond two nF nS s0 s1 sz then
+        [(e.1, (⟨Gen.layoutFirstStart two nF nS s0 s1 sz, Gen.layoutFirstSize two nF nS s0 s1 sz⟩ : MsgInfo),
+               (⟨Gen.layoutSecondStart two nF nS s0 s1 sz, Gen.layoutSecondSize two nF nS s0 s1 sz⟩ : MsgInfo))]
+      else [])
+      ++ layoutG two sz csS csT es (s0 + Gen.layoutInc0 two nF nS s0 s1 sz) (s1 + Gen.layoutInc1 two nF nS s0 s1 sz)
+
+/-- `BufferedCommunicator::build` (overload `two`) on an object in state `c`, loop as regenerated -/
+def Comm.buildG (c : Comm) (two : Bool) (sz : Nat) (csS csT : Nat → Nat) (ifs : IfMap) : Comm :=
+  { ifs := ifs, msgs := (layoutG two sz csS csT ifs 0 0).foldl insertKeep c.free.msgs, sz := sz, csS := csS, csT := csT }
 
 /-! ### termination at the message level -/
 
